@@ -115,18 +115,24 @@ func runC16(c *Ctx) {
 	{
 		fn := maskPayload
 		var setBit, maskCall, payloadCall, gen, msk ssa.Instruction
-		eachInstr(fn, func(in ssa.Instruction) {
+		// GenMask / Mask may sit in a helper that receives the key and the payload (applyFreshMask(f.Mask(), f.Payload())):
+		// their arguments are read with the helper's parameters bound to what MaskPayload passes
+		var genKey, mskKey, mskPayload ssa.Value
+		eachInstrDeep(fn, func(in, _ ssa.Instruction, tr func(ssa.Value) ssa.Value) {
 			switch {
-			case isCallToFn(in, setIsMasked):
+			case isCallToFn(in, setIsMasked) && in.Parent() == fn:
 				setBit = in
-			case isCallToFn(in, maskM):
+			case isCallToFn(in, maskM) && in.Parent() == fn:
 				maskCall = in
-			case isCallToFn(in, w.payloadM):
+			case isCallToFn(in, w.payloadM) && in.Parent() == fn:
 				payloadCall = in
 			case isCallToFn(in, genMask):
 				gen = in
+				genKey = stripConv(tr(in.(*ssa.Call).Call.Args[0]))
 			case isCallToFn(in, maskFn):
 				msk = in
+				mskKey = stripConv(tr(in.(*ssa.Call).Call.Args[0]))
+				mskPayload = stripConv(tr(in.(*ssa.Call).Call.Args[1]))
 			}
 		})
 		good := setBit != nil && maskCall != nil && payloadCall != nil && gen != nil && msk != nil
@@ -135,11 +141,11 @@ func runC16(c *Ctx) {
 			switch {
 			case !dominatesInstr(setBit, maskCall) || !dominatesInstr(setBit, payloadCall):
 				good, why = false, "mask and payload are located before the mask bit is set: their offsets are 4 bytes off"
-			case !dominatesInstr(gen, msk):
+			case gen.Parent() != msk.Parent() || !dominatesInstr(gen, msk):
 				good, why = false, "the payload is masked before the key is generated: the key on the wire is not the one used"
-			case gen.(*ssa.Call).Call.Args[0] != ssa.Value(maskCall.(*ssa.Call)) || msk.(*ssa.Call).Call.Args[0] != ssa.Value(maskCall.(*ssa.Call)):
+			case genKey != ssa.Value(maskCall.(*ssa.Call)) || mskKey != ssa.Value(maskCall.(*ssa.Call)):
 				good, why = false, "GenMask and Mask do not operate on the same f.Mask() bytes"
-			case msk.(*ssa.Call).Call.Args[1] != ssa.Value(payloadCall.(*ssa.Call)):
+			case mskPayload != ssa.Value(payloadCall.(*ssa.Call)):
 				good, why = false, "Mask is not applied to f.Payload()"
 			}
 		}
@@ -155,7 +161,15 @@ func runC16(c *Ctx) {
 						return false
 					}
 					b, ok := lc.Call.Value.(*ssa.Builtin)
-					return ok && b.Name() == "len" && stripConv(lc.Call.Args[0]) == ssa.Value(payloadCall.(*ssa.Call))
+					if !ok || b.Name() != "len" {
+						return false
+					}
+					arg := stripConv(lc.Call.Args[0])
+					if arg == ssa.Value(payloadCall.(*ssa.Call)) {
+						return true
+					}
+					// in the helper: the parameter that Mask receives as the payload
+					return msk.Parent() != fn && arg == stripConv(msk.(*ssa.Call).Call.Args[1])
 				}
 				switch {
 				case isCmp && lenOfPayload(x) && isConstInt(y, 0) && (op == token.GTR || op == token.NEQ || op == token.GEQ):
